@@ -292,9 +292,49 @@ def run_keyless(case):
     return out
 
 
+def required_cases():
+    """DETERMINISTIC stream (no randomness, every run, both tiers): every kind and argument form that sanity()
+    demands, built on matcoq's fixed template frame -- each label kind x {named, unnamed} index through every
+    relabelling method, every target kind with every unlabeled-rows pattern, every signature form, numeric backing
+    and memory layout, tied categories under every labelling, a one-row frame, duplicated labels with missing cells,
+    an embedding column (width 1) sorting after its text/image siblings."""
+    combos = [("offset", "assign"), ("perm", "set_index"), ("string", "assign"), ("dup", "set_index"),
+              ("positions", "iloc"), ("positions", "concat"), ("derived", "reverse"), ("derived", "sort_index"),
+              ("derived", "take"), ("derived", "sample"), ("derived", "reindex")]
+    names = ["data", "index", "cat", "level_0"]
+    targets = ["none", "numerical", "categorical"]
+    pats = {"numerical": ["first", "last", "all", None], "categorical": ["first", "last", None], "none": [None]}
+    used = {"numerical": 0, "categorical": 0, "none": 0}
+    lay = [None] + M.RESTRIDES
+    out = []
+    i = 0
+    for named in (False, True):
+        for kind, method in combos:
+            tk = targets[i % 3]
+            un = pats[tk][used[tk] % len(pats[tk])]
+            used[tk] += 1
+            fr, forms = M.template_frame(i, tk, un)
+            forms["path"] = False
+            n = fr["n"]
+            rows = list(range(n))
+            if kind == "positions":
+                rows = [2, 0, 1, 3] if method == "iloc" else [2, 0, 1, 3, 0]
+            out.append({"frame": fr, "rows": rows, "label_kind": kind, "method": method, "perm": fr["col_order"][::-1],
+                        "split": 2, "index_name": names[i % 4] if named else None, "unlabeled": un, "forms": forms,
+                        "q": [(k * 3 + 1) % len(rows) if len(rows) % 3 else (len(rows) - 1 - k) for k in range(len(rows))],
+                        "seed": 7 + i, "layouts": {t: lay[(i + k) % 5] for k, t in enumerate("ABCD")}, "required": True})
+            i += 1
+    fr, forms = M.template_frame(i, "none", None, n_rows=1)             # a one-row frame
+    forms["path"] = False
+    out.append({"frame": fr, "rows": [0], "label_kind": "offset", "method": "assign", "perm": fr["col_order"][::-1],
+                "split": 0, "index_name": None, "unlabeled": None, "forms": forms, "q": [0], "seed": 1,
+                "layouts": {t: None for t in "ABCD"}, "required": True})
+    return out
+
+
 def generate(rng, tier):
-    n = 150 if tier == "quick" else 5000
-    cases = [gen_case(rng) for _ in range(n)] + [{"kind": "keyless"}, {"kind": "guards"}]
+    n = 120 if tier == "quick" else 5000
+    cases = required_cases() + [gen_case(rng) for _ in range(n)] + [{"kind": "keyless"}, {"kind": "guards"}]
     cases += [gen_case(rng, n=r) for r in LARGE_ROWS]
     if tier == "thorough":
         cases += exhaustive_orders(rng)
